@@ -35,3 +35,9 @@ Example C02_ex2 : ctor KCube 1729 1000 4 = RNum 1 [1; 2; 0; 0] false.
 Proof. vm_compute. reflexivity. Qed.
 Example C02_ex3 : ctor KCube 35223040952 1 9 = RNum 4 [3; 2; 7; 8] true.
 Proof. vm_compute. reflexivity. Qed.
+
+(* the constants these theorems are about are the ones in the Go sources now (Generated/SrcParams.v, rewritten on
+   every run by harness/cmd/srcparams) *)
+Require SrcParamsOK.
+Definition C02_source_constants := (SrcParamsOK.compute_constants_v1, SrcParamsOK.compute_constants_v2, SrcParamsOK.compute_constants_v3,
+  SrcParamsOK.cube_next_digit_identities, SrcParamsOK.format_constants).
